@@ -108,8 +108,15 @@ class Sched:
         if self.steps > self.step_limit:
             self._abort("steplimit", f"run not finished after {self.step_limit} scheduling steps: " + self._describe())
         if self.ci < len(self.choices):
-            nxt = cands[self.choices[self.ci] % len(cands)]
+            c = self.choices[self.ci]
             self.ci += 1
+            if c < 0:
+                # "starve the consumers": the most recently registered thread that can do
+                # real work (not a queue-wait timeout) keeps the baton
+                pool = [t for t in cands if not t.is_timeout()] or cands
+                nxt = pool[-1]
+            else:
+                nxt = cands[c % len(cands)]
         else:
             nonto = [t for t in cands if not t.is_timeout()]
             pool = nonto or cands
@@ -221,21 +228,40 @@ class Sched:
         def join(worker, timeout=None):
             rec = sched.rec_of(worker)
             if sched.controlled() and rec is not None:
-                sched.yield_point("join:" + rec.name, enabled=lambda: rec.done)
-                orig_join(worker, 10)
+                if timeout is None:
+                    sched.yield_point("join:" + rec.name, enabled=lambda: rec.done)
+                    orig_join(worker, 10)
+                else:
+                    # a join with a timeout returns when the scheduler fires the timeout,
+                    # whether or not the thread has ended
+                    sched.yield_point("join-timeout:" + rec.name, enabled=lambda: True,
+                                      is_timeout=lambda: not rec.done)
+                    if rec.done:
+                        orig_join(worker, 10)
                 return
             if sched.aborted and not sched.finished and sched.me() is not None:
                 raise SchedAbort()
             orig_join(worker, timeout)
 
-        W.Queue = lambda *a, **k: CQueue(sched)
+        def is_alive(worker):
+            """thread-liveness query = yield point, answered in model time"""
+            rec = sched.rec_of(worker)
+            if sched.controlled():
+                sched.yield_point("is_alive")
+                return rec is not None and rec.started and not rec.done
+            return orig_is_alive(worker)
+
+        orig_is_alive = threading.Thread.is_alive
+        saved_alive = W.Worker.__dict__.get("is_alive")
+        W.Queue = lambda maxsize=0, *a, **k: CQueue(sched, maxsize)
         W.Worker.start = start
         W.Worker.join = join
+        W.Worker.is_alive = is_alive
         try:
             yield self
         finally:
             W.Queue = saved[0]
-            for name, val in (("start", saved[1]), ("join", saved[2])):
+            for name, val in (("start", saved[1]), ("join", saved[2]), ("is_alive", saved_alive)):
                 if val is None:
                     try:
                         delattr(W.Worker, name)
@@ -254,19 +280,42 @@ class Sched:
 
 class CQueue:
     """FIFO whose operations are yield points of the scheduler alive at its
-    creation; plain (non-blocking) operations otherwise."""
+    creation; plain (non-blocking) operations otherwise.  Honours maxsize like
+    queue.Queue: a blocking put waits for room, a put with a timeout may time
+    out (queue.Full) when the scheduler fires the timeout."""
 
-    def __init__(self, sched):
+    def __init__(self, sched, maxsize=0):
         self.s = sched
         self.d = deque()
+        self.maxsize = maxsize or 0
         self.puts = 0
         self.put_log = []  # (item is a str marker, queue length before the put)
 
+    def _full(self):
+        return self.maxsize > 0 and len(self.d) >= self.maxsize
+
     def put(self, item, block=True, timeout=None):
-        self.s.yield_point("put")
+        if not self.s.controlled():
+            if self.s.aborted and not self.s.finished and self.s.me() is not None:
+                raise SchedAbort()
+            if self._full():
+                raise _queue.Full
+        elif not block:
+            self.s.yield_point("put_nowait")
+            if self._full():
+                raise _queue.Full
+        elif timeout is None:
+            self.s.yield_point("put", enabled=lambda: not self._full())
+        else:
+            self.s.yield_point("put-timeout", enabled=lambda: True, is_timeout=self._full)
+            if self._full():
+                raise _queue.Full
         self.put_log.append((isinstance(item, str), len(self.d)))
         self.d.append(item)
         self.puts += 1
+
+    def put_nowait(self, item):
+        return self.put(item, block=False)
 
     def get(self, block=True, timeout=None):
         if not self.s.controlled():
@@ -296,3 +345,6 @@ class CQueue:
 
     def empty(self):
         return not self.d
+
+    def full(self):
+        return self._full()
